@@ -23,7 +23,7 @@ INVARIANTS {inv}
 CHECK_DEADLOCK FALSE
 """
 LAWS = "TypeOK Partition NotSwaps"
-LAW_PROPS = "PROPERTIES DeleteKeepsUnknown UpdateKeepsCount"
+LAW_PROPS = "PROPERTIES DeleteKeepsUnknown UpdateKeepsCount MergeFailsWithoutEffect MergeIsFunctional"
 
 BASE = [{"op": "create", "h": "main", "rows": [[1, 1], [2, -1], [3, 2]]},
         {"op": "append", "h": "main", "rows": [[4, 0], [5, -1], [6, 2]]}]
